@@ -53,13 +53,7 @@ func classesEq(a []kinds.Class, b ...kinds.Class) bool {
 
 func (im *Impl) findPrintRoles() (*printRoles, string) {
 	r := &printRoles{selectors: map[string]bool{}}
-	set := func(dst *string, name, role string) string {
-		if *dst != "" {
-			return fmt.Sprintf("two helpers with the signature of %s: %s and %s", role, *dst, name)
-		}
-		*dst = name
-		return ""
-	}
+	cands := map[string][]string{} // role → helpers with that role's signature
 	var names []string
 	for n := range im.Methods {
 		names = append(names, n)
@@ -75,23 +69,67 @@ func (im *Impl) findPrintRoles() (*printRoles, string) {
 			continue
 		}
 		cl := im.classes(sig)
-		var msg string
 		switch {
 		case sig.Results().Len() == 0 && classesEq(cl, kinds.Tok, kinds.Bytes):
-			msg = set(&r.tok, name, "printToken")
+			cands["printToken"] = append(cands["printToken"], name)
 		case sig.Results().Len() == 0 && classesEq(cl, kinds.Node):
-			msg = set(&r.node, name, "printNode")
+			cands["printNode"] = append(cands["printNode"], name)
 		case sig.Results().Len() == 0 && classesEq(cl, kinds.NodeList):
-			msg = set(&r.list, name, "printList")
+			cands["printList"] = append(cands["printList"], name)
 		case sig.Results().Len() == 0 && classesEq(cl, kinds.NodeList, kinds.TokList, kinds.Bytes):
-			msg = set(&r.seplist, name, "printSeparatedList")
+			cands["printSeparatedList"] = append(cands["printSeparatedList"], name)
 		case sig.Results().Len() == 0 && classesEq(cl, kinds.Bytes):
-			msg = set(&r.write, name, "write")
+			cands["write"] = append(cands["write"], name)
 		case sig.Results().Len() == 1 && kinds.Classify(sig.Results().At(0).Type(), im.Kinds) == kinds.Bytes && len(cl) >= 2:
 			r.selectors[name] = true
 		}
-		if msg != "" {
-			return nil, msg
+	}
+	// several helpers with one role's signature: the role belongs to the one that is called from outside
+	// the group (a helper only its namesakes call is a piece split off from them and is inlined by the
+	// path extraction)
+	callers := func(name string) map[string]bool {
+		out := map[string]bool{}
+		for caller, fd := range im.Methods {
+			if fd.Body == nil || caller == name {
+				continue
+			}
+			ast.Inspect(fd.Body, func(n ast.Node) bool {
+				if c, ok := n.(*ast.CallExpr); ok {
+					if se, ok := c.Fun.(*ast.SelectorExpr); ok && se.Sel.Name == name {
+						if fn, ok := im.info().Uses[se.Sel].(*types.Func); ok && fn == im.info().Defs[im.Methods[name].Name] {
+							out[caller] = true
+						}
+					}
+				}
+				return true
+			})
+		}
+		return out
+	}
+	for role, dst := range map[string]*string{"printToken": &r.tok, "printNode": &r.node, "printList": &r.list, "printSeparatedList": &r.seplist, "write": &r.write} {
+		cs := cands[role]
+		if len(cs) > 1 {
+			group := map[string]bool{}
+			for _, c := range cs {
+				group[c] = true
+			}
+			var roots []string
+			for _, c := range cs {
+				for caller := range callers(c) {
+					if !group[caller] {
+						roots = append(roots, c)
+						break
+					}
+				}
+			}
+			if len(roots) != 1 {
+				sort.Strings(cs)
+				return nil, fmt.Sprintf("several helpers with the signature of %s: %s", role, strings.Join(cs, ", "))
+			}
+			cs = roots
+		}
+		if len(cs) == 1 {
+			*dst = cs[0]
 		}
 	}
 	if r.tok == "" || r.node == "" || r.list == "" || r.seplist == "" || r.write == "" {
@@ -648,7 +686,8 @@ func PrintInserts(p *load.Program, tb *kinds.Table) *report.RuleResult {
 				return true
 			}
 			if c, ok := im.constBytes(call.Args[0]); ok {
-				facts.Inserts = appendInsert(facts.Inserts, PrintInsert{Func: "printer." + name, Const: c, Pos: im.pos(call)})
+				// keyed by the constant, not by the helper that happens to hold the write: splitting or renaming a helper is not a new insertion
+				facts.Inserts = appendInsert(facts.Inserts, PrintInsert{Func: "helper", Const: c, Pos: im.pos(call)})
 			}
 			return true
 		})
